@@ -564,3 +564,56 @@ func resultOf(r *ssa.Return, i int) ssa.Value {
 	}
 	return v
 }
+
+type cfgEdge struct {
+	b  *ssa.BasicBlock
+	si int
+}
+
+// reachesAvoiding: target is reachable from the entry block without using any of the given edges.
+func reachesAvoiding(f *ssa.Function, target *ssa.BasicBlock, removed []cfgEdge) bool {
+	if target == f.Blocks[0] {
+		return true
+	}
+	seen := map[int]bool{0: true}
+	stack := []*ssa.BasicBlock{f.Blocks[0]}
+	for len(stack) > 0 {
+		b := stack[len(stack)-1]
+		stack = stack[:len(stack)-1]
+	succ:
+		for si, s := range b.Succs {
+			for _, e := range removed {
+				if e.b == b && e.si == si {
+					continue succ
+				}
+			}
+			if s == target {
+				return true
+			}
+			if !seen[s.Index] {
+				seen[s.Index] = true
+				stack = append(stack, s)
+			}
+		}
+	}
+	return false
+}
+
+// edgesWhere lists the CFG edges (block, successor index) on which pred(cond, truth) holds.
+func edgesWhere(f *ssa.Function, pred func(cond ssa.Value, truth bool) bool) []cfgEdge {
+	var out []cfgEdge
+	for _, b := range f.Blocks {
+		iff := ifOf(b)
+		if iff == nil {
+			continue
+		}
+		cond, flip := stripNot(iff.Cond)
+		for si := 0; si < 2; si++ {
+			truth := (si == 0) != flip
+			if pred(cond, truth) {
+				out = append(out, cfgEdge{b, si})
+			}
+		}
+	}
+	return out
+}
